@@ -9,7 +9,7 @@ From LV Require Import Base.Bytes Base.Sx Model.Obj Model.DocQ Model.Writer Mode
   Proofs.ObjectRtProofs Proofs.SaveProofs Proofs.FilterProofsDict Spec.SaveSpec Proofs.LoadProofs Proofs.LoadProofsFile
   Proofs.LoadProofsXref Proofs.LoadProofsTable Proofs.LoadProofsAgain Proofs.LoadProofsStream Proofs.LoadProofsFull
   Proofs.StrictLoadProofs Proofs.StrictRevisionProofs Proofs.StrictIncrementalProofs Proofs.C07Bytes Proofs.C07BytesTable
-  Proofs.C07BytesHistory.
+  Proofs.C07BytesStream Proofs.C07BytesHistory.
 
 Local Open Scope N_scope.
 
@@ -114,39 +114,41 @@ Definition ex_result2 : objmap :=
   [((1, 0), ex_cat2); ((2, 0), OInt 7); ((3, 0), OStr (bs "newer") false); ((4, 0), ORef 1 0)].
 
 Lemma ex_history1 :
-  lopdf_history ex_F2 (io_start (inc_save ex_s)) (d_objects ex_result).
+  lopdf_history ex_F2 (io_start (inc_save ex_s)) XTable (d_objects ex_result).
 Proof.
   destruct example_reload as (H1 & H2 & H3 & H4 & H5 & H6 & H7 & H8 & _).
-  pose proof (hist_save ex_d H1 H2 H3 H4) as Hh.
+  pose proof (hist_save XTable ex_d H1 H2 H3 H4) as Hh.
   assert (Hl : load (so_bytes (save XTable ex_d)) = LOk (reloaded XTable ex_d) XTTable).
   { apply (load_save_gen XTable ex_d); [apply savable_written; exact H1 | rewrite known_deep_written by exact H1; exact H2 | exact H3]. }
-  pose proof (hist_update _ _ _ (reloaded XTable ex_d) ex_s Hh Hl) as Hu.
+  pose proof (hist_update _ _ XTable _ (reloaded XTable ex_d) ex_s Hh Hl) as Hu.
   assert (Ebytes : i_bytes ex_s = so_bytes (save XTable ex_d)) by reflexivity.
   assert (Eprev : i_prev ex_s = {| xd_doc := reloaded XTable ex_d; xd_start := Save.blen (body_of ex_d); xd_type := XTable |}) by reflexivity.
   specialize (Hu Ebytes Eprev).
   assert (Hdom : upd_dom (Save.blen (body_of ex_d)) (xd_doc (i_new ex_s))).
   { change (xd_doc (i_new ex_s)) with ex_nd. constructor; [exact H5 | exact H6 | | | |]; rewrite ex_nd_eq; vm_compute; reflexivity. }
-  specialize (Hu Hdom H7).
+  assert (Hmx : d_max_id (reloaded XTable ex_d) <= d_max_id (xd_doc (i_new ex_s))) by (vm_compute; discriminate).
+  specialize (Hu Hdom Hmx H7).
   assert (Hids : Forall (fun io : oid * obj => In (fst io) (map fst (d_objects (reloaded XTable ex_d))) \/
                             ~ In (fst (fst io)) (obj_numbers (d_objects (reloaded XTable ex_d)))) (d_objects (xd_doc (i_new ex_s)))).
   { change (d_objects (xd_doc (i_new ex_s))) with (d_objects ex_nd). rewrite ex_nd_eq. cbn [d_objects].
     apply Forall_cons; [left; left; reflexivity|]. apply Forall_cons; [|apply Forall_nil].
     right. vm_compute. intros [H|[H|[]]]; discriminate H. }
   specialize (Hu Hids).
+  cbn [step_objs] in Hu.
   replace (d_objects ex_result) with
-    (Incremental.overlay (norm_objects (d_objects (SaveSpec.written ex_d))) (norm_objects (d_objects (xd_doc (i_new ex_s)))))
+    (Incremental.overlay (d_objects (reloaded XTable ex_d)) (norm_objects (d_objects (xd_doc (i_new ex_s)))))
     by (vm_compute; reflexivity).
   exact Hu.
 Qed.
 
 Theorem example_second_update :
-  lopdf_history (io_bytes (inc_save ex_s2)) (io_start (inc_save ex_s2)) ex_result2 /\
+  lopdf_history (io_bytes (inc_save ex_s2)) (io_start (inc_save ex_s2)) XTable ex_result2 /\
   load (io_bytes (inc_save ex_s2)) =
   LOk {| d_version := bs "1.5"; d_binary_mark := [xbb; xad; xc0; xde];
          d_trailer := [(K_Root, ORef 1 0); (Save.K_Size, OInt 5)]; d_objects := ex_result2; d_max_id := 4 |} XTTable.
 Proof.
   split; [|vm_compute; reflexivity].
-  pose proof (hist_update _ _ _ ex_result ex_s2 ex_history1 example_reload_computed eq_refl eq_refl) as Hu.
+  pose proof (hist_update _ _ XTable _ ex_result ex_s2 ex_history1 example_reload_computed eq_refl eq_refl) as Hu.
   assert (End : xd_doc (i_new ex_s2) =
                 {| d_version := INC_VERSION; d_binary_mark := INC_BINARY_MARK;
                    d_trailer := [(K_Root, ORef 1 0); (Save.K_Size, OInt 4); (Save.K_Prev, OInt (Z.of_N (io_start (inc_save ex_s))))];
@@ -165,7 +167,8 @@ Proof.
       constructor; [cbn [snd]; constructor; vm_compute; discriminate|].
       constructor; [cbn [snd]; constructor; reflexivity|].
       constructor; [cbn [snd]; constructor; vm_compute; reflexivity | constructor]. }
-  specialize (Hu Hdom).
+  assert (Hmx : d_max_id ex_result <= d_max_id (xd_doc (i_new ex_s2))) by (rewrite End; vm_compute; discriminate).
+  specialize (Hu Hdom Hmx).
   assert (Hlen : Save.blen (io_bytes (inc_save ex_s2)) < u32_mod) by (vm_compute; reflexivity).
   specialize (Hu Hlen).
   assert (Hids : Forall (fun io : oid * obj => In (fst io) (map fst (d_objects ex_result)) \/
@@ -173,11 +176,71 @@ Proof.
   { rewrite End. cbn [d_objects].
     apply Forall_cons; [left; right; right; left; reflexivity|]. apply Forall_cons; [|apply Forall_nil].
     right. vm_compute. intros [H|[H|[H|[]]]]; discriminate H. }
-  specialize (Hu Hids).
+  specialize (Hu Hids). cbn [step_objs] in Hu.
   replace ex_result2 with (Incremental.overlay (d_objects ex_result) (norm_objects (d_objects (xd_doc (i_new ex_s2)))))
     by (vm_compute; reflexivity).
   exact Hu.
 Qed.
 
+(* ---------- the same document and edits in the cross-reference STREAM format ---------- *)
+Definition ex_Fs : bytes := so_bytes (save XStream ex_d).
+Definition ex_prev_s : xdoc := {| xd_doc := reloaded XStream ex_d; xd_start := Save.blen (body_of ex_d); xd_type := XStream |}.
+Definition ex_ss : incdoc := fold_left apply_edit ex_edits (create_from ex_Fs ex_prev_s).
+
+(* the loaded document holds the two cross-reference stream objects (numbers 3 and 5) besides the objects 1, 2, 4 *)
+Theorem example_stream :
+  lopdf_history (io_bytes (inc_save ex_ss)) (io_start (inc_save ex_ss)) XStream
+                (step_objs XStream (d_objects (reloaded XStream ex_d)) (xd_doc (i_new ex_ss))
+                           (Save.blen (ex_Fs ++ inc_lines (xd_doc (i_new ex_ss))))) /\
+  obj_numbers (step_objs XStream (d_objects (reloaded XStream ex_d)) (xd_doc (i_new ex_ss))
+                         (Save.blen (ex_Fs ++ inc_lines (xd_doc (i_new ex_ss))))) = [1; 2; 3; 4; 5] /\
+  exists d', load (io_bytes (inc_save ex_ss)) = LOk d' XTStream /\
+             d_objects d' = step_objs XStream (d_objects (reloaded XStream ex_d)) (xd_doc (i_new ex_ss))
+                                      (Save.blen (ex_Fs ++ inc_lines (xd_doc (i_new ex_ss)))) /\
+             lookup (d_objects d') (1, 0) = Some ex_cat2 /\ lookup (d_objects d') (4, 0) = Some (OStr (bs "new") false).
+Proof.
+  assert (H1 := ex_d_savable).
+  assert (H2 : known_deep ex_d = false) by (vm_compute; reflexivity).
+  assert (H3 : small_file XStream ex_d) by (vm_compute; reflexivity).
+  assert (H4 : dict_get (d_trailer ex_d) K_XRefStm = None) by reflexivity.
+  pose proof (hist_save XStream ex_d H1 H2 H3 H4) as Hh.
+  assert (Hl : load (so_bytes (save XStream ex_d)) = LOk (reloaded XStream ex_d) XTStream).
+  { apply (load_save_gen XStream ex_d); [apply savable_written; exact H1 | rewrite known_deep_written by exact H1; exact H2 | exact H3]. }
+  pose proof (hist_update _ _ XStream _ (reloaded XStream ex_d) ex_ss Hh Hl eq_refl eq_refl) as Hu.
+  assert (End : xd_doc (i_new ex_ss) =
+                {| d_version := INC_VERSION; d_binary_mark := INC_BINARY_MARK;
+                   d_trailer := [(K_Root, ORef 1 0); (K_Type, OName K_XRef); (Save.K_Size, OInt 4); (Save.K_Prev, OInt 67)];
+                   d_objects := [((1, 0), ex_cat2); ((4, 0), OStr (bs "new") false)];
+                   d_max_id := 4 |}) by (vm_compute; reflexivity).
+  assert (Hdom : upd_dom (Save.blen (body_of ex_d)) (xd_doc (i_new ex_ss))).
+  { rewrite End. constructor; try (vm_compute; reflexivity).
+    constructor; cbn [d_max_id d_objects d_trailer].
+    - vm_compute. reflexivity.
+    - cbn [obj_numbers map fst increasing]. repeat split; reflexivity.
+    - apply Forall_cons; [|apply Forall_cons; [|apply Forall_nil]]; cbn [fst snd].
+      + split; [vm_compute; discriminate|]. split; [vm_compute; discriminate|]. split; [|reflexivity].
+        cbn [top_wf ex_cat2]. constructor; [repeat constructor; cbn; intuition discriminate|].
+        constructor; [constructor|]. constructor; [|constructor]. cbn [snd]. constructor. reflexivity.
+      + split; [vm_compute; discriminate|]. split; [vm_compute; discriminate|]. split; [|reflexivity]. constructor.
+    - constructor; [repeat constructor; cbn; intuition discriminate|].
+      constructor; [cbn [snd]; constructor; vm_compute; discriminate|].
+      constructor; [cbn [snd]; constructor|].
+      constructor; [cbn [snd]; constructor; reflexivity|].
+      constructor; [cbn [snd]; constructor; reflexivity | constructor]. }
+  assert (Hmx : d_max_id (reloaded XStream ex_d) <= d_max_id (xd_doc (i_new ex_ss))) by (vm_compute; discriminate).
+  assert (Hlen : Save.blen (io_bytes (inc_save ex_ss)) < u32_mod) by (vm_compute; reflexivity).
+  specialize (Hu Hdom Hmx Hlen).
+  assert (Hids : Forall (fun io : oid * obj => In (fst io) (map fst (d_objects (reloaded XStream ex_d))) \/
+                            ~ In (fst (fst io)) (obj_numbers (d_objects (reloaded XStream ex_d)))) (d_objects (xd_doc (i_new ex_ss)))).
+  { rewrite End. cbn [d_objects].
+    apply Forall_cons; [left; left; reflexivity|]. apply Forall_cons; [|apply Forall_nil].
+    right. vm_compute. intros [H|[H|[H|[]]]]; discriminate H. }
+  specialize (Hu Hids).
+  split; [exact Hu|]. split; [vm_compute; reflexivity|].
+  destruct (history_loads _ _ _ _ Hu) as [_ [v [m [t [mx Hload]]]]].
+  eexists. split; [exact Hload|]. cbn [d_objects]. split; [reflexivity|]. split; vm_compute; reflexivity.
+Qed.
+
 Print Assumptions example_reload.
+Print Assumptions example_stream.
 Print Assumptions example_second_update.
